@@ -17,7 +17,7 @@ RULE = ('directions: boundary grid (every 5 deg) and seeded-random points with h
         'both projection paths. distinct_nontrivial = distinct inputs (quantised to 1e-12) that reached a monitor.')
 ASSUMPTIONS = ['float32 accuracy bound of the statement taken as 1e-6 rad (measured worst values are in the evidence)',
                'V2 reference: light plane through the rotation axis direction tilted by 30 deg, n(a).d = 0']
-REQUIRED = ['mon.v1_v2_v1', 'mon.v1_cart_v1', 'mon.v1_proj_v1', 'mon.v2_plane_reference', 'mon.pose_inverse',
+REQUIRED = ['mon.list_helpers_asked_again_after_the_list_changed', 'mon.v1_v2_v1', 'mon.v1_cart_v1', 'mon.v1_proj_v1', 'mon.v2_plane_reference', 'mon.pose_inverse',
             'mon.pose_associativity', 'mon.pose_views', 'mon.solver_projection', 'mon.solver_zero_rotation', 'mon.ippe_axes', 'mon.pose_laws_after_history',
             'mon.solver_pairs_with_crazyflie_behind_the_base_station', 'mon.solver_non_canonical_rotation_vectors']
 
@@ -119,6 +119,33 @@ def run_grid(desc, ctx):
         all(abs(pl[i][0] - math.tan(0.1 * i)) < 1e-6 and abs(pl[i][1] - math.tan(-0.05 * i)) < 1e-6 for i in range(4))
     if not ok:
         ctx.violate('lhvec:list-helpers-order-or-values', {'angle_list': al.tolist(), 'projection_pair_list': pl.tolist()})
+    # lists with history: the helpers are asked again after the list was changed in place (element replaced, order
+    # reversed, sorted, the array of the earlier answer modified by the caller) - row i is always element i's value
+    import random as _random
+    lrnd = _random.Random(desc.get('seed', 0))
+    for _ in range(60):
+        n = lrnd.randint(1, 6)
+        vs = LighthouseBsVectors([LighthouseBsVector(lrnd.uniform(-1.2, 1.2), lrnd.uniform(-0.9, 0.9)) for _ in range(n)])
+        first_p, first_a = vs.projection_pair_list(), vs.angle_list()
+        op = lrnd.choice(('replace', 'reverse', 'sort', 'scribble', 'replace'))
+        if op == 'replace':
+            vs[lrnd.randrange(n)] = LighthouseBsVector(lrnd.uniform(-1.2, 1.2), lrnd.uniform(-0.9, 0.9))
+        elif op == 'reverse':
+            vs.reverse()
+        elif op == 'sort':
+            vs.sort(key=lambda v: v.lh_v1_vert_angle)
+        else:
+            first_p *= -1.0
+            first_a += 1.0
+        ctx.evals()
+        ctx.count('mon.list_helpers_asked_again_after_the_list_changed')
+        p2, a2 = vs.projection_pair_list(), vs.angle_list()
+        okl = len(p2) == n and len(a2) == 2 * n and \
+            all(abs(p2[i][0] - vs[i].projection[0]) < 1e-12 and abs(p2[i][1] - vs[i].projection[1]) < 1e-12 for i in range(n)) and \
+            all(abs(a2[2 * i] - vs[i].lh_v1_horiz_angle) < 1e-12 and abs(a2[2 * i + 1] - vs[i].lh_v1_vert_angle) < 1e-12 for i in range(n))
+        if not okl:
+            ctx.violate('lhvec:list-helpers-stale-after-the-list-changed', {'change': op, 'n': n, 'projection_pair_list': p2.tolist(),
+                                                                            'per_element': [list(v.projection) for v in vs]})
     ctx.sample({'grid': '5 degree grid over +-80 x +-55', 'worst_errors': worst})
 
 
